@@ -233,7 +233,7 @@ PROPS["C10"] = {
 
 PROPS["C08"] = {
     "level": "other",
-    "rules": [p_bitmap.dom_bitmap, p_bitmap.align_cover, p_symbols.tab_sym],
+    "rules": [p_bitmap.dom_bitmap, p_bitmap.align_cover, p_bitmap.prov_map, p_bitmap.render_geom, p_symbols.tab_sym],
     "explanation": "Clause-level claim. Decided: the rejection clause (last sentence): ZeroWidth exactly on the true edge of the first test "
                    "`width == 0`, every division by width on its false edge, DataSize exactly for len % width != 0, SymbolSize exactly "
                    "for a failed lookup of (width, len/width) in the full catalogue, five error variants; ALIGN-COVER - the finder tests "
@@ -247,7 +247,7 @@ PROPS["C08"] = {
 
 PROPS["C07"] = {
     "level": "other",
-    "rules": [p_place.tab_plc, p_symbols.tab_sym],
+    "rules": [p_place.tab_plc, p_bitmap.prov_map, p_symbols.tab_sym],
     "explanation": "Clause-level claim by source-level comparison with the standard's reference placement program (Annex F.3, transcribed "
                    "independently; the repo's extra/symbol_placement.c is not the oracle). Decided after canonicalisation (polynomial "
                    "normal form over i, j, h, w; integer comparison normalisation; De Morgan): the five module tables (utah, corner1-4: "
